@@ -22,7 +22,7 @@ def sample_configs(tier, seed):
     rest = [c for c in fam if c not in pick]
     rng.shuffle(rest)
     pick += rest[:20]
-    pick += [factory_cfg.random_config(rng, 9000 + i) for i in range(30 if tier == "quick" else 600)]
+    pick += [factory_cfg.random_config(rng, 9000 + i) for i in range(30 if tier == "quick" else 400)]
     if tier == "quick":
         rng.shuffle(pick)
         pick = pick[:70]
@@ -38,6 +38,12 @@ def _spawn(cfgs, wd, tag, hashseed, rseed, garbage):
     p = subprocess.Popen([sys.executable, "-m", "fsverif.det_worker", inp, out, str(rseed), str(garbage)], cwd=common.VERIF, env=env,
                          stdout=subprocess.DEVNULL, stderr=subprocess.PIPE)
     return p, out
+
+
+def _tlc_chunk(args):
+    i, pairs = args
+    viol, r = tracecheck.check_batch("Trace_Determinism", pairs, CLAUSES[0], CLAUSES[1], workers=4, timeout=1200, tag="det%d" % i)
+    return viol, r.as_dict()
 
 
 def run(prop, tier, seed):
@@ -76,7 +82,29 @@ def run(prop, tier, seed):
             for a, b in zip(runs["same1"], runs[tag]):
                 pairs.append({"name": a["name"], "family": a["family"], "other": tag, "ev": a["ev"], "evb": b["ev"],
                               "outcome": a["outcome"], "outcomeb": b["outcome"]})
-        viol, r = tracecheck.check_batch("Trace_Determinism", pairs, CLAUSES[0], CLAUSES[1], workers=8, timeout=1500, tag="det")
+        # TLC deserialises a whole batch before it starts: keep the batches small and run them side by side
+        chunk = 200
+        chunks = [pairs[i:i + chunk] for i in range(0, len(pairs), chunk)]
+        import multiprocessing as mp
+        with mp.Pool(4) as pool:
+            outs = pool.map(_tlc_chunk, [(i, c) for i, c in enumerate(chunks)])
+        viol = []
+        r = None
+        for i, (v, rr) in enumerate(outs):
+            for x in v:
+                x["tid"] += i * chunk
+            viol += v
+            if r is None or not rr["completed"] or rr["errors"]:
+                r = rr
+        class _R:      # noqa
+            pass
+        rr_ = _R()
+        rr_.completed = all(o[1]["completed"] for o in outs)
+        rr_.errors = [e for o in outs for e in o[1]["errors"]]
+        rr_.stdout = ""
+        rr_.as_dict = lambda: {"completed": rr_.completed, "errors": rr_.errors[:3], "batches": len(outs),
+                               "generated": sum(o[1]["generated"] for o in outs), "wall": round(sum(o[1]["wall"] for o in outs), 1)}
+        r = rr_
         vs = []
         seen = set()
         for v in viol:
